@@ -22,10 +22,10 @@ func init() {
 		ID:    "C04",
 		Level: "exploration",
 		Rule: "A (pure, exhaustive over a grid): delegations and invocations built with every combination of absent/present nbf/exp from {now-10y, now-1d, now-1h, now+1h, now+1d, now+10y, 2^53-1 s (exp/nbf via absolute option)} incl. exp<nbf, as constructed and after seal/unseal, plus tokens decoded from hand-signed payloads whose exp/nbf take every delicate value (0, +-1, +-(2^53-1), the Go zero time, 2^31, year 10000, null/absent; the reported window must be the signed one); each token probed with IsValidAt at b+{-100y,-1h,-1s,-(1s-1ns),-1us,-1ns,+1ns,+1us,+(1s-1ns),+1s,+1h,+100y} around each reported bound b; instants strictly inside the reported window must be valid, strictly outside invalid (instants on a bound are recorded, not judged). " +
-			"B (chains): conforming chains with one or more expired / not-yet-active tokens at every position (invocation, leaf, middle, root), offsets from {-10y,-1d,-1h,+1h,+1d,+10y}; allowed => the invocation and every link are valid. " +
+			"B (chains): conforming chains with one or more expired / not-yet-active tokens at every position (invocation, leaf, middle, root), offsets from {3s, 45s, 6min, 31min, 1h, 1d, 10y} on either side (a tolerance for clock skew, a comparison in coarser units or against a stale reading would show at the small ones); allowed => the invocation and every link are valid. " +
 			"non-trivial = token with >=1 bound (A) / chain with >=1 out-of-window token (B); distinct = (type, bounds, codec state, probe) / (n, offsets vector).",
 		Assumptions: []string{
-			"every generated bound is >= 1h away from the wall clock at generation; the call is bracketed by two clock readings and a scenario whose bound is within 5 min of the bracket would be discarded as inconclusive, so the wall clock never decides",
+			"B: the call is bracketed by two clock readings; a token counts as expired only if its reported expiration lies more than a second BEFORE the bracket and as not yet active only if its not-before lies more than a second AFTER it (so whatever instant inside the bracket the library read, the verdict is the same); a scenario with a bound inside the bracket is discarded. Offsets down to 3 s are used this way without the clock ever deciding",
 			"the window is the one the token itself reports through NotBefore()/Expiration()",
 		},
 		Shards:      shards(8, 16),
@@ -33,7 +33,7 @@ func init() {
 		MinEvals:    floor(7000, 50000),
 		MinDistinct: floor(3000, 15000),
 		RequiredCells: func(string) []string {
-			cells := []string{"A/zones", "B/long-chain", "B/far-bound", "A/inside", "A/before-nbf", "A/after-exp", "A/on-bound", "A/decoded", "A/constructed", "A/delegation", "A/invocation", "A/exp<nbf", "A/far-future-bound", "A/decoded-from-signed-payload",
+			cells := []string{"A/zones", "B/long-chain", "B/far-bound", "B/near-bound", "A/inside", "A/before-nbf", "A/after-exp", "A/on-bound", "A/decoded", "A/constructed", "A/delegation", "A/invocation", "A/exp<nbf", "A/far-future-bound", "A/decoded-from-signed-payload",
 				"B/all-valid", "B/expired@inv"}
 			for _, pos := range []string{"first", "middle", "last", "only"} {
 				cells = append(cells, "B/expired@"+pos, "B/notyet@"+pos)
@@ -350,7 +350,10 @@ func runC04(w *mon.W) {
 		nbad := []int{0, 1, 1, 1, 2, 3}[r.IntN(6)]
 		var offs []string
 		for k := 0; k < nbad; k++ {
-			off := gen.Pick(r, []time.Duration{time.Hour, 24 * time.Hour, 10 * 365 * 24 * time.Hour})
+			off := gen.Pick(r, []time.Duration{time.Hour, 24 * time.Hour, 10 * 365 * 24 * time.Hour, 3 * time.Second, 45 * time.Second, 6 * time.Minute, 31 * time.Minute})
+			if off < time.Hour {
+				w.Cover("B/near-bound")
+			}
 			where := r.IntN(n + 1) // n = the invocation itself
 			switch r.IntN(4) {
 			case 0:
@@ -384,25 +387,57 @@ func runC04(w *mon.W) {
 				w.Cover("B/notyet@" + pos3(where, n))
 			}
 		}
-		want, why := s.TimesOK()
 		b, err := s.Build(r)
 		if err != nil {
 			w.Inconclusive("C04 scenario could not be realised: " + err.Error())
 			continue
 		}
+		// the call is bracketed by two clock readings; each reported bound is classified against
+		// the bracket (with a second of margin): an expiration before the bracket makes the token
+		// invalid during the whole call, a not-before after it likewise; a bound inside the
+		// bracket decides nothing and the scenario is discarded
+		tb := time.Now()
 		e := allowed(b.Inv, b.Loader, it%4 == 0)
-		t1 := time.Now()
+		ta := time.Now()
 		w.Eval(1)
-		// no reported bound may be near the bracket [T0, t1]
-		near := func(t *time.Time) bool {
-			return t != nil && t.After(b.T0.Add(-5*time.Minute)) && t.Before(t1.Add(5*time.Minute))
+		want, why, ambiguous := true, "", false
+		judge := func(label string, nbf, exp *time.Time) {
+			if exp != nil {
+				switch {
+				case exp.Before(tb.Add(-time.Second)):
+					if want {
+						want, why = false, "time-exp@"+label
+					}
+				case exp.After(ta.Add(time.Second)):
+				default:
+					ambiguous = true
+				}
+			}
+			if nbf != nil {
+				switch {
+				case nbf.After(ta.Add(time.Second)):
+					if want {
+						want, why = false, "time-nbf@"+label
+					}
+				case nbf.Before(tb.Add(-time.Second)):
+				default:
+					ambiguous = true
+				}
+			}
 		}
-		skip := near(b.Inv.Expiration())
-		for _, d := range b.Dlgs {
-			skip = skip || near(d.Expiration()) || near(d.NotBefore())
+		judge("inv", nil, b.Inv.Expiration())
+		for k, d := range b.Dlgs {
+			judge(fmt.Sprint(k), d.NotBefore(), d.Expiration())
 		}
-		if skip {
-			w.Inconclusive("C04 a time bound fell within 5 minutes of the call")
+		if why == "time-exp@inv" {
+			why = "time@inv"
+		}
+		if ambiguous {
+			w.Count("B/bound-inside-the-call-bracket(discarded)", 1)
+			continue
+		}
+		if mw, _ := s.TimesOK(); mw != want {
+			w.Inconclusive(fmt.Sprintf("C04 B: the reported windows (%v) disagree with the generated offsets %v", want, offs))
 			continue
 		}
 		if nbad > 0 {
